@@ -39,6 +39,12 @@ class ParseRelation:
         self.fn = mod.function("parse")
         info = gen.it.module("vyxal.parse").get("STRUCTURE_INFORMATION")
         self.opener_class = {k: v[0].name for k, v in info.items()}
+        unknown = [c for c in self.opener_class.values()
+                   if c not in Gen_classes()]
+        if unknown:
+            raise AnalysisError(
+                f"structure classes {unknown} are new: the shape family "
+                "does not cover them")
         self.closer = {k: v[1] for k, v in info.items()}
         self.child_parent: dict[str, str] = {}
         self.built_in_arm: dict[str, list[str]] = {}
